@@ -155,12 +155,31 @@ CHECKS = {
          "serde_cbor/serde/serde_bytes behaviour is modelled, not verified; documented leniencies (dtn ssp position, fragment fields by count, "
          "definite outer / indefinite inner arrays, tags, non-shortest heads, text or u8-array as byte string) are outside the fault classes.",
          "DESIGN.md section 6 C19"),
+ "C20": ("Coq theorems C20_encode / C20_encode_stdin (for every UTF-8 manifest whose every line the tool's loop accepts — manifest_ok: the five "
+         "keys in any order and multiplicity, comments, blank lines, Unicode white space, valid dtn/ipn/none endpoint IDs, any humantime lifetime "
+         "below 2^64 ms, a flag word that validates — every payload, payload from a file or from stdin, raw and -x output, every clock after "
+         "2000-01-01: the run exits 0 and its standard output decodes with the library model (after unhexify of the text minus the newline in -x "
+         "mode) to a bundle that validates and has exactly the manifest's destination, source, report-to, lifetime and flags, creation time = clock "
+         "- 946684800000, sequence 0 and the given payload), C20_manifest_canonical (the five-line key=value manifests over parsable EID texts and "
+         "duration texts are in manifest_ok with the fields their values denote), C20_decode_payload / _stdin (for every well-formed bundle of the "
+         "C01 domain `decode <hex> -p` and `decode - -p` print exactly its payload bytes, exit 0, nothing on stderr), C20_time_commands (dtntime "
+         "<t>, dtntime, d2u <t> print DtnTime.string / dtn_time_now / unix + newline) over a transcription of src/main.rs (argument dispatch, "
+         "usage and exit codes, manifest_to_primary, generate_bundle, decode) on top of the library models and a COMPLETE transcription of "
+         "humantime 2.4.0 parse_duration (all units, fractions, embedded white space, checked arithmetic); corollaries of C01, C07, C10, C17, C18. "
+         "K-cli channel: the real bp7 binary (debug build, clock hook through BP7_VERIF_CLOCK_MS) run as a child process on generated manifests x "
+         "payloads (empty, binary, 64 KiB) x modes x payload source, on reference encodings of C01-domain bundles (hex argument and raw stdin, with "
+         "and without -p), malformed inputs of every kind (agreement on the abort), time commands on boundary values, usage paths; `rnd` is checked "
+         "by an oracle inside the harness (output decodes, validates, stderr = id); the Python oracle recomputes the expected bytes with the "
+         "independent RFC 9171 reference encoder and its own manifest/duration reader.",
+         "manifests valid UTF-8 (from_utf8_lossy replacement not modelled); clock strictly after 2000-01-01 and < 2^64 ms; lifetime < 2^64 ms, "
+         "sub-millisecond parts dropped (wire format); Debug dump of `decode` without -p, `rnd` randomness and `benchmark` not modelled; humantime, "
+         "Rust std (env::args, fs::read, str methods, exit code 101 on panic) modelled, tied by the channel, not verified.",
+         "DESIGN.md section 6 C20"),
 }
 
 PENDING = {
 
- "C11": "check not built yet","C13": "check not built yet","C19": "check not built yet", "C20": "check not built yet",
-}
+ "C11": "check not built yet","C13": "check not built yet","C19": "check not built yet",}
 
 
 def main():
